@@ -19,7 +19,7 @@ EVIDENCE_DIR = os.path.join(VERIF, "evidence")
 REPLAY_DIR = os.path.join(VERIF, "replays")
 KNOWN_FILE = os.path.join(VERIF, "known_findings.json")
 SCHEMA = "/root/.vp/EVIDENCE.schema.json"
-MAX_REPORTED = 8
+MAX_REPORTED = 3
 
 
 class HarnessError(Exception):
@@ -157,7 +157,11 @@ def run_check(prop, tier, seed):
     # A violation is only believed if it reproduces from its replay case (twice, identically).
     confirmed = []
     seen_keys = {}
+    seen_msgs = set()
     for v in new:
+        if (v.key, v.message) in seen_msgs:
+            continue
+        seen_msgs.add((v.key, v.message))
         if seen_keys.get(v.key, 0) >= MAX_REPORTED:
             seen_keys[v.key] += 1
             continue
